@@ -351,7 +351,20 @@ pub fn interrupted_runs(rep: &mut Report, root: &std::path::Path, prop: &str, cb
         let r = wk.run(&s);
         let n = std::fs::read_to_string(wk.dir.join("shim.log")).unwrap_or_default().lines().filter(|l| l.starts_with("R ")).count();
         if !r.ok() || n == 0 {
-            return rep.machinery(format!("interrupted runs: numbering run of {} failed (exit {:?}, {} reads)", cb, r.code, n));
+            // An undisturbed run that fails, or ends with exit 0 without having read a single block, is an observation about the
+            // subject, not about this harness: judge it like any other run of this world (whole chain, heights 0..6). Only when
+            // the oracle has nothing to say although no read was seen is the shim itself in doubt.
+            let bad = match *cb {
+                "csvdump" => check_csvdump(&r, btc, &all, 0, 6),
+                "unspentcsvdump" => check_unspent(&r, btc, &all, 0, 6),
+                "balances" => check_balances(&r, btc, &all, 0, 6),
+                _ => check_opreturn(&r, btc, &all),
+            };
+            match bad.into_iter().next() {
+                Some((sig, detail)) => rep.disagree(&format!("interrupted-runs:undisturbed-run:{}", sig), format!("{} on the 7-block one-block-per-file world, no signal: {}", cb, detail.chars().take(500).collect::<String>()), replay_case(&world, &s, json!({"oracle": "model of the whole chain, heights 0..6"}), &r, &wk.dir)),
+                None => rep.machinery(format!("interrupted runs: numbering run of {} saw {} blk reads (exit {:?}) although its output is right: the shim did not trace", cb, n, r.code)),
+            }
+            return;
         }
         rep.count(&format!("interrupted-runs:blk-reads:{}", cb), n as u64);
         for k in 0..n {
